@@ -32,7 +32,7 @@ THEOREMS = ['FFVerif.C03a.' + t for t in THEOREMS_A] + ['FFVerif.C03c.' + t for 
     + ['FFVerif.C03d.' + t for t in THEOREMS_D]
 LEAN_MODULES = ['FFVerif.Props.C03a', 'FFVerif.Props.C03c', 'FFVerif.Props.C03d']
 PINS = ['pinConcatenate', 'pinConcatenateWithoutFF', 'pinControlMatrixFromAtomic',
-        'pinBasisArrayFinalize', 'pinHashArray']
+        'pinBasisArrayFinalize', 'pinHashArray', 'pinConcatenateHamiltonian']
 GEN_SITES = ['einsum:numeric_calculate_control_matrix_from_atomic_0',
              'einsum:numeric_calculate_pulse_correlation_filter_function_0',
              'einsum:numeric_calculate_pulse_correlation_filter_function_1',
